@@ -713,6 +713,25 @@ macro_rules! c08_dfs_events {
                 let (ev, r) = run(&base);
                 $ctx.mix(&ev);
                 same_as_bare($ctx, &base, &(ev.clone(), r.clone()));
+                // a visitor returning () always continues
+                {
+                    $ctx.calls += 1;
+                    let mut ev2: Vec<Ev> = vec![];
+                    let r2 = $crate::guard::guarded(|| {
+                        depth_first_search(g, starts.iter().map(|&s| enc.id(s)), |e| {
+                            ev2.push(match e {
+                                DfsEvent::Discover(u, Time(t)) => Ev::Discover(enc.abs(u), t),
+                                DfsEvent::TreeEdge(u, v) => Ev::Tree(enc.abs(u), enc.abs(v)),
+                                DfsEvent::BackEdge(u, v) => Ev::Back(enc.abs(u), enc.abs(v)),
+                                DfsEvent::CrossForwardEdge(u, v) => Ev::Cross(enc.abs(u), enc.abs(v)),
+                                DfsEvent::Finish(u, Time(t)) => Ev::Finish(enc.abs(u), t),
+                            });
+                        })
+                    });
+                    if r.is_ok() && (r2.is_err() || ev2 != ev) {
+                        $ctx.viol("depth_first_search", "a visitor returning () is not treated like one that always continues", format!("{} starts {:?} got {:?} want {:?}", desc(), starts, ev2, ev));
+                    }
+                }
                 match r {
                     Err(m) => $ctx.viol("depth_first_search", &format!("panic: {}", $crate::guard::panic_class(&m)), format!("{} starts {:?}: {}", desc(), starts, m)),
                     Ok(broke) => {
